@@ -1,0 +1,11 @@
+//go:build verif
+
+// Contracts for the exovc verifier (/verif). Comment-only: with the tag off this file is not part
+// of the package, with the tag on it declares nothing.
+package common
+
+// C12: a round is decided only with strictly more than the configured fraction (ThresholdA/ThresholdB) of the total power
+//@ func ExceedsThreshold
+//@   requires !isnil(power) && !isnil(totalPower)
+//@   ensures[C12.et.spec] result == (val(power) * g("x/oracle/keeper/common.ThresholdB") > val(totalPower) * g("x/oracle/keeper/common.ThresholdA"))
+//@   ensures[C12.et.strict] result && val(totalPower) >= 0 ==> 3 * val(power) > 2 * val(totalPower)
